@@ -42,9 +42,18 @@ class Session:
             if self.summary_info is None:
                 saved = R.ST.active
                 R.ST.active = None
-                self.summary_info = summary.build(lambda fn: X.explore(fn, want_witness=False),
-                                                  self.mods['category'].categorize)
-                R.ST.active = saved
+                try:
+                    self.summary_info = summary.build(lambda fn: X.explore(fn, want_witness=False),
+                                                      self.mods['category'].categorize)
+                except R.EngineError as e:
+                    # the categoriser cannot be summarised (e.g. it now uses an unmodelled operation): stay in
+                    # direct mode; the paths through it will be reported as unsupported / incomplete
+                    self.summary_info = {'failed': str(e)}
+                finally:
+                    R.ST.active = saved
+            if 'failed' in self.summary_info:
+                self.use_summary = on
+                return
             summary.install(self.mods)
         else:
             summary.uninstall(self.mods)
